@@ -31,7 +31,9 @@
  *   suspend <id> | resume <id> | setprio <id> <p> | setbound <id> <b>
  *   pstate <h> <p> | off <h> | on <h> | loff <l> | lon <l>
  *   sample <tag>                                        speeds, bandwidths, states, loads, consumed energies
- * Output lines: act (one per finished activity), sample, adv (with "observe"), end.
+ * Output lines: act (one per finished activity), sample, adv (with "observe"), end; with "observe" also cap0 (host
+ * capacities cores * get_speed * get_available_speed before the simulation starts) and capchg (after every pstate op), so
+ * that the capacity in force during each interval between two adv lines is known.
  */
 #include <simgrid/Exception.hpp>
 #include <simgrid/kernel/ProfileBuilder.hpp>
@@ -136,6 +138,15 @@ static std::string d2s(double v)
   char buf[64];
   snprintf(buf, sizeof buf, "%.17g", v);
   return buf;
+}
+
+// current capacity of every host, as the public API gives it: cores * peak speed of the pstate * availability
+static std::string caps_json()
+{
+  std::string o = "[";
+  for (size_t i = 0; i < hosts.size(); i++)
+    o += (i ? "," : "") + d2s(hosts[i]->get_speed() * hosts[i]->get_available_speed() * hosts[i]->get_core_count());
+  return o + "]";
 }
 
 static void log_end(const char* how)
@@ -311,8 +322,11 @@ static void run_actor(int idx)
         if (a.ptr->get_impl()->model_action_ != nullptr)
           a.ptr->get_impl()->model_action_->set_bound(b);
       });
-    } else if (n == "pstate")
+    } else if (n == "pstate") {
       hosts[std::stoi(op.a[0])]->set_pstate(std::stoul(op.a[1]));
+      if (observe)
+        emit("{\"e\":\"capchg\",\"t\":" + d2s(sg4::Engine::get_clock()) + ",\"cap\":" + caps_json() + "}");
+    }
     else if (n == "off")
       hosts[std::stoi(op.a[0])]->turn_off();
     else if (n == "on")
@@ -439,6 +453,12 @@ static void on_time_advance(double delta)
   o << "],\"lcap\":[";
   for (size_t i = 0; i < links.size(); i++)
     o << (i ? "," : "") << d2s(links[i]->get_bandwidth());
+  o << "],\"avail\":[";
+  for (size_t i = 0; i < hosts.size(); i++)
+    o << (i ? "," : "") << d2s(hosts[i]->get_available_speed());
+  o << "],\"peak\":[";
+  for (size_t i = 0; i < hosts.size(); i++)
+    o << (i ? "," : "") << d2s(hosts[i]->get_speed());
   o << "]}";
   emit(o.str());
 }
@@ -581,8 +601,10 @@ static int run_one(int argc, char** argv)
   }
   zone->seal();
 
-  if (observe)
+  if (observe) {
     sg4::Engine::on_time_advance_cb(on_time_advance);
+    emit("{\"e\":\"cap0\",\"cap\":" + caps_json() + "}");
+  }
   sg4::Engine::on_deadlock_cb([]() { log_end("deadlock"); });
   sg4::Engine::on_simulation_end_cb([]() { log_end("normal"); });
 
